@@ -15,6 +15,7 @@ Python only DRIVES: it concretises the abstract cases, builds the containers thr
 import hashlib
 import json
 import os
+from concurrent.futures import ThreadPoolExecutor
 
 import c05_rom as rom
 from lib import tlc
@@ -194,39 +195,53 @@ def build(c):
     return sb
 
 
-def observe(case, tid, keep_bytes=False):
-    """Run one abstract case on the real code: build, replay its export history, executor on every exported file.
-    Returns the list of traces (one per Export)."""
+def plan_of(case):
+    """Abstract case -> concrete plan {conc, ops}; deterministic in (VERIF_SEED, case)."""
     r = rng(PROP, "case", json.dumps(case, sort_keys=True))
     c = concretise(case, r)
     c["via_set"] = r.random() < 0.3
-    out = []
+    ops = []
+    for op in case.get("hist", ["Export"]):
+        if op == "Add":
+            ops.append({"op": "Add", "cmd": conc_cmd({"t": r.choice(list(CMD_NAMES)), "dl": r.choice([0, 3, 16, 100, 240, 256, 300])}, r)})
+        else:
+            ops.append({"op": "Export"})
+    return {"case": case, "conc": c, "ops": ops}
+
+
+def execute(plan, tid, keep_bytes=False):
+    """Run a plan on the real code: build the object, replay its history, run the executor on every exported file.
+    Returns the list of traces (one per Export)."""
+    case, c = plan["case"], json.loads(json.dumps(plan["conc"]))
     try:
         sb = build(c)
     except Exception as e:  # noqa: BLE001 - refusing an in-range input is an observation: no file, so no Accept
-        return [{"id": f"{tid}.1", "case": case, "conc": c, "k": 1, "inp": spec_inp(c), "ev": [{"ev": "BuilderRefused", "exc": type(e).__name__, "msg": str(e)[:200]}]}]
-    k = 0
-    for op in case.get("hist", ["Export"]):
-        if op == "Add":
-            ac = {"t": r.choice(list(CMD_NAMES)), "dl": r.choice([0, 3, 16, 100, 240, 256, 300])}
-            cc = conc_cmd(ac, r)
-            c["cmds"] = c["cmds"] + [cc]
-            sb.sb_commands.add_command(real_cmd(cc))
+        return [{"id": f"{tid}.1", "plan": plan, "case": case, "k": 1, "inp": spec_inp(c),
+                 "ev": [{"ev": "BuilderRefused", "exc": type(e).__name__, "msg": str(e)[:200]}]}]
+    out, k = [], 0
+    for op in plan["ops"]:
+        if op["op"] == "Add":
+            c["cmds"] = c["cmds"] + [op["cmd"]]
+            sb.sb_commands.add_command(real_cmd(op["cmd"]))
             continue
         k += 1
-        t = {"id": f"{tid}.{k}", "case": case, "conc": json.loads(json.dumps(c)), "k": k, "inp": spec_inp(c)}
+        t = {"id": f"{tid}.{k}", "plan": plan, "case": case, "k": k, "inp": spec_inp(c), "rom": rom_env(c)}
         try:
             data = sb.export()
         except Exception as e:  # noqa: BLE001
             t["ev"] = [{"ev": "ExportRefused", "exc": type(e).__name__, "msg": str(e)[:200]}]
             out.append(t)
             break
-        t["ev"] = rom.run(data, rom_env(c))
+        t["ev"] = rom.run(data, t["rom"])
         t["len"] = len(data)
         if keep_bytes or t["ev"][-1]["ev"] != "Accept":
-            t["file"] = data.hex()
+            t["file"] = data
         out.append(t)
     return out
+
+
+def observe(case, tid, keep_bytes=False):
+    return execute(plan_of(case), tid, keep_bytes)
 
 
 def strip(t):
@@ -253,7 +268,16 @@ def clause_of(t, matched):
         return f"Cmd/{CMD_NAMES.get(exp, 'unexpected-extra-command')}"
     if k in ("BuilderRefused", "ExportRefused"):
         return f"{k}/{ev['exc']}"
-    false = sorted(f for f, x in ev.items() if x is False and f not in ("ca", "hasUserData", "last", "enc", "hasX"))
+    if k == "Section":
+        cfg = f"sha{8 * t['case']['curve']}-pck{t['case']['pck']}" if t["inp"]["enc"] else "plain"
+        if ev["uid"] != 1 or ev["type"] != 1:
+            return f"Section/header-not-found-after-decryption/{cfg}"
+        if 16 + ev["len"] > ev["streamLen"]:
+            return "Section/longer-than-the-data-blocks"
+        return "Section/block-count"
+    if k == "DeriveKdk":
+        return f"DeriveKdk/sha{8 * t['case']['curve']}-pck{t['case']['pck']}"
+    false = sorted(f for f, x in ev.items() if x is False and f not in ("ca", "hasUserData", "last", "enc", "hasX", "padZero", "rsvZero", "dataPadZero", "tailZero"))
     return k + ("/" + false[0] if false else "")
 
 
@@ -270,26 +294,35 @@ def describe(t, matched):
             f"event #{matched + 1} {json.dumps(ev)[:500]}")
 
 
-def validate(v, traces, what):
+def witness(t, matched, **more):
+    w = {"kind": "export", "plan": t["plan"], "export": t["k"], "trace": strip(t), "failed_event": matched + 1,
+         "file": t["file"].hex() if t.get("file") else None}
+    w.update(more)
+    return w
+
+
+def validate(v, traces, what, extra=()):
     """TLC decides all traces; rejected ones become violations; rejected files are re-examined with the failing layout clause
     waived so that an independent second defect in the same file gets its own finding key."""
-    rej, res = tlc.tv("C05", "Sb31RomTrace", [strip(t) for t in traces], heap="8g")
-    v.traces(len(traces))
+    rej, res = tlc.tv("C05", "Sb31RomTrace", [strip(t) for t in traces] + [strip(t) for t in extra], heap="8g", timeout=1800)
+    v.traces(len(traces) + len(extra))
     v.extra["tv_states"] = v.extra.get("tv_states", 0) + res.distinct
     by_id = {t["id"]: t for t in traces}
+    by_export = set(by_id)
     for t in traces:
         if t["id"] not in rej and t["ev"][-1]["ev"] != "Accept":
             raise Machinery(f"trace {t['id']} consumed by the spec but does not end with Accept: {t['ev'][-1]}")
     diag = []
     for tid, (matched, length, evname) in rej.items():
+        if tid not in by_id:
+            continue  # canary / tampered traces: accounted by the caller
         t = by_id[tid]
-        v.violation(finding_key(t, matched), describe(t, matched), {"case": t["case"], "export": t["k"], "conc": t["conc"], "trace": strip(t), "failed_event": matched + 1,
-                                                                    "file": t.get("file")})
+        v.violation(finding_key(t, matched), describe(t, matched), witness(t, matched))
         if evname == "Layout" and t.get("file"):
             d = dict(t)
             d["id"] = t["id"] + ".diag"
             d["inp"] = dict(t["inp"], waive=["Layout"])
-            d["ev"] = rom.run(bytes.fromhex(t["file"]), rom_env(t["conc"]), waive=("Layout",))
+            d["ev"] = rom.run(t["file"], t["rom"], waive=("Layout",))
             diag.append(d)
     if diag:
         rej2, _ = tlc.tv("C05", "Sb31RomTrace", [strip(t) for t in diag], heap="8g")
@@ -297,6 +330,211 @@ def validate(v, traces, what):
         for tid, (matched, length, evname) in rej2.items():
             t = by_id[tid]
             v.violation(finding_key(t, matched), describe(t, matched) + " (second defect of this file: total-length clause waived)",
-                        {"case": t["case"], "export": t["k"], "conc": t["conc"], "trace": strip(t), "failed_event": matched + 1, "file": t.get("file"), "waived": ["Layout"]})
-    say(f"[C05] {what}: {len(traces)} traces validated, {len(rej)} rejected ({v.timer.s()}s)")
+                        witness(t, matched, waived=["Layout"]))
+    say(f"[C05] {what}: {len(traces) + len(extra)} traces validated, {sum(1 for x in rej if x in by_export)} exports rejected ({v.timer.s()}s)")
     return rej
+
+
+# ------------------------------------------------------------------ tampering
+def tamper_traces(t, n_bits, r, all_bits_of=()):
+    """Single-bit corruptions of an accepted file, stratified by region; the executor runs on every corrupted file.
+    Input comparison is waived: the question is whether the loader's OWN checks notice the change."""
+    data = t["file"]
+    out = []
+    regs = rom.regions(data)
+    picks = []
+    for name, a, b in regs:
+        if name in all_bits_of or any(name.startswith(p) for p in all_bits_of):
+            picks += [(name, bit) for bit in range(8 * a, 8 * b)]
+        else:
+            picks += [(name, r.randrange(8 * a, 8 * b)) for _ in range(n_bits)]
+    inp = dict(t["inp"], waive=["Input"])
+    for name, bit in picks:
+        d = bytearray(data)
+        d[bit // 8] ^= 1 << (bit % 8)
+        out.append({"id": f"{t['id']}~{bit}", "plan": t["plan"], "case": t["case"], "k": t["k"], "inp": inp, "region": name, "bit": bit,
+                    "ev": rom.run(bytes(d), t["rom"])})
+    return out
+
+
+# ------------------------------------------------------------------ the check
+ACTIONS = ("Build", "DoParseHeader", "DoHeaderFields", "DoLayout", "DoCertHeader", "DoRootKeyRecord", "DoIskCert", "DoCertBlockEnd", "DoVerifyBlock0",
+           "DoDeriveKdk", "DoBlock", "DoSection", "DoCmd", "DoAccept", "GiveUp")
+
+
+def dedupe(items):
+    seen, out = set(), []
+    for x in items:
+        k = json.dumps(x, sort_keys=True)
+        if k not in seen:
+            seen.add(k)
+            out.append(x)
+    return out
+
+
+def run(tier):
+    import_spsdk()
+    v = Verdict(PROP, tier)
+    quick = tier == "quick"
+    r = rng(PROP)
+    pool()
+
+    # ---- MC: the loader automaton against the documented construction and the menu of construction mistakes
+    #      (runs in the background while the real code is exercised; joined before the verdict)
+    bg = ThreadPoolExecutor(max_workers=1)
+    mc_job = bg.submit(tlc.mc, "C05", "Sb31RomMC", "Sb31RomMC.cfg", env={"MC_LEVEL": 1 if quick else 2}, require_actions=ACTIONS, heap="8g", timeout=1500,
+                       workers=6 if quick else 12)
+    # ---- MC of the history I-spec: the intended rule holds (the same run prints the histories, GEN); the rule as built is
+    #      PREDICTED to fail (information only - only the R-spec verdict on real bytes counts)
+    oi = tlc.mc("C05", "Sb31Obj", "Sb31ObjIntended.cfg", env={"GEN": 1}, require_actions=("Export", "AddCommand"), workers=1)
+    v.add_mc(oi)
+    hists = dedupe(oi.json_prints())
+    ob = tlc.run("C05", "Sb31Obj", "Sb31ObjAsBuilt.cfg", env={"GEN": 0}, workers=1, deadlock=False)
+    v.extra["ispec_prediction"] = (f"Sb31Obj with the update rule as built: {ob.violated or 'no invariant violated'} "
+                                   f"(after {ob.distinct} states) - replayed below on the real object")
+    if len(hists) < 10 or ["Export", "Export"] not in hists or ["Export", "Add", "Export"] not in hists:
+        raise Machinery(f"history GEN produced {hists}")
+
+    # ---- GEN: abstract cases
+    g1 = tlc.run("C05", "Sb31Gen", "Sb31Gen.cfg", env={"GEN_MODE": "tour", "GEN_FULL": 0 if quick else 1, "GEN_MAXCMDS": 0}, workers=1, deadlock=False, heap="8g", timeout=600)
+    v.add_mc(g1)
+    tour = dedupe(g1.json_prints())
+    g2 = tlc.run("C05", "Sb31Gen", "Sb31Gen.cfg", env={"GEN_MODE": "sim", "GEN_FULL": 0, "GEN_MAXCMDS": 8}, workers=1, deadlock=False, heap="8g",
+                 simulate=f"num={400 if quick else 6000}", depth=12, timeout=600)
+    sim = dedupe(g2.json_prints())
+    if len(tour) < 3000 or len(sim) < (200 if quick else 3000):
+        raise Machinery(f"case GEN produced only {len(tour)} + {len(sim)} cases\n{g2.out[-1500:]}")
+    cases = tour + sim
+    # histories x a seeded sample of configurations (every history with every class of configuration in the thorough tier)
+    cfgs = [c for c in tour if len(c["cmds"]) == 3 and c["cmds"][1]["dl"] == 300]
+    r.shuffle(cfgs)
+    hcases = [dict(c, hist=h) for h in hists for c in cfgs[: (6 if quick else 60)]]
+    say(f"[C05] GEN: {len(tour)} tour cases, {len(sim)} simulated cases, {len(hists)} histories x configurations = {len(hcases)} history cases ({v.timer.s()}s)")
+
+    # ---- run everything on the real code (parallel), executor on every exported file
+    allc = cases + hcases
+    keep = set(r.sample(range(len(cases)), 40 if quick else 300))
+    res = pmap(lambda ic: execute(plan_of(ic[1]), ic[0], keep_bytes=ic[0] in keep), list(enumerate(allc)), chunksize=32)
+    traces = [t for ts in res for t in ts]
+    v.count(len(traces))
+    for t in traces:
+        if len(t["ev"]) > 3:
+            v.nontrivial(json.dumps([t["case"], t["k"]], sort_keys=True))
+    say(f"[C05] {len(allc)} cases built through the real classes, {len(traces)} exports walked by the executor ({v.timer.s()}s)")
+    acc = [t for t in traces if t["ev"][-1]["ev"] == "Accept"]
+    if len(acc) < len(cases) // 2:
+        say(f"[C05] note: only {len(acc)} of {len(traces)} executor runs ended in Accept")
+
+    # ---- canary: a good trace is accepted; one corrupted logged number / one corrupted input field / one false fact is rejected
+    good = json.loads(json.dumps(strip(next(t for t in acc if t["inp"]["cmds"] and t["inp"]["enc"]))))
+    good["id"] = "canary-good"
+    canary = [good]
+    for name, f in (("position", lambda t: [e.__setitem__("at", e["at"] + 1) for e in t["ev"] if e["ev"] == "Block"][:0]),
+                    ("input", lambda t: t["inp"]["cmds"][0].__setitem__("t", t["inp"]["cmds"][0]["t"] % 14 + 1)),
+                    ("fact", lambda t: next(e for e in t["ev"] if e["ev"] == "VerifyBlock0").__setitem__("ok", False)),
+                    ("kdf", lambda t: next(e for e in t["ev"] if e["ev"] == "Block")["kdf"].__setitem__("iters", 3)),
+                    ("coverage", lambda t: t["ev"].pop(next(i for i, e in enumerate(t["ev"]) if e["ev"] == "Block")))):
+        b = json.loads(json.dumps(good))
+        b["id"] = "canary-bad-" + name
+        f(b)
+        canary.append(b)
+
+    # ---- tamper: single-bit corruptions of files the executor walked to the end must be rejected by the loader's own checks
+    kept = [t for t in acc if t.get("file") is not None and t["k"] == 1]
+    if len(kept) < 10:
+        say(f"[C05] note: only {len(kept)} accepted files available for tampering")
+    small = sorted(kept, key=lambda t: len(t["file"]))[:1 if quick else 4]
+    jobs = [(t, 2 if quick else 6, ("hdr.", "cert.header", "cert.rkr_flags", "cert.isk_header") if t in small else ()) for t in kept]
+    if not quick:
+        jobs += [(t, 1, ("",)) for t in small[:2]]  # every bit of two whole files
+    tam = [x for xs in pmap(lambda j: tamper_traces(j[0], j[1], rng(PROP, "tamper", j[0]["id"]), j[2]), jobs, chunksize=2) for x in xs]
+    v.count(len(tam))
+    say(f"[C05] tamper: {len(tam)} single-bit corruptions of {len(kept)} files walked by the executor ({v.timer.s()}s)")
+
+    # ---- TV: TLC decides everything in one batch (canary first: a monitor that accepts a corrupted trace is machinery failure)
+    rej = validate(v, traces, "exports + tampered files", extra=canary + tam)
+    if {t["id"] for t in canary} & set(rej) != {t["id"] for t in canary[1:]}:
+        raise Machinery(f"canary failed: rejected {sorted(x for x in rej if str(x).startswith('canary'))}")
+    v.extra["canary"] = ("known-good trace accepted; the same trace with a shifted block position, a changed input command, a false signature fact, "
+                         "a wrong KDF iteration count, a skipped block: all rejected")
+    v.sample({"case": acc[0]["case"], "export": acc[0]["k"], "events": acc[0]["ev"][:12]})
+    v.sample({"case": acc[-1]["case"], "export": acc[-1]["k"], "events": [e for e in acc[-1]["ev"] if e["ev"] in ("Layout", "Block", "Section", "Cmd", "Accept")][:10]})
+    n_acc = 0
+    for t in tam:
+        if t["id"].split("~")[0] in rej:
+            continue  # the untampered file itself was not accepted: nothing to measure
+        if t["id"] not in rej:
+            n_acc += 1
+            v.violation(f"C05/tamper/{t['region']}/accepted", f"file with bit {t['bit']} ({t['region']}) flipped is still accepted by the loader automaton: a byte outside the signature + hash-chain coverage",
+                        {"kind": "tamper", "plan": t["plan"], "bit": t["bit"], "region": t["region"], "trace": strip(t)})
+    if tam:
+        v.extra["tamper_rejected"] = len(tam) - n_acc
+        v.extra["tamper_regions"] = sorted({t["region"] for t in tam})
+        v.sample({"tampered": tam[0]["region"], "bit": tam[0]["bit"], "last_event": tam[0]["ev"][-1]})
+
+    mc = mc_job.result()
+    v.add_mc(mc)
+    say(f"[C05] MC Sb31RomMC: {mc.distinct} states, depth {mc.depth}, every action fired, Complete/Sound/Covered/Located hold ({round(mc.wall, 1)}s in the background)")
+    ends = sorted({(t["ev"][-1]["end"] - 1) // 256 + 1 for t in acc})
+    v.extra["block_counts_seen"] = f"{ends[0]}..{ends[-1]} ({len(ends)} distinct)"
+    v.extra["stream_end_offsets_mod_256"] = sorted({t["ev"][-1]["end"] % 256 for t in acc})
+    v.extra["command_types_decoded"] = sorted({e["cmd"] for t in acc for e in t["ev"] if e["ev"] == "Cmd"})
+    v.cov["rule"] = (
+        "cases = TLC-enumerated tours (every configuration: P-256/P-384 x 10 root sets/used keys x no ISK / ISK / ISK + 4 / 96 bytes user data x plain / PCK 128 / 256 x "
+        "rights 0..3 x NXP flag; every data command with data lengths that end the stream at every 16-byte offset of blocks 1..3 (thorough 1..5) with paddings of the last "
+        "word; every command type alone over a data-length menu (thorough: all lengths 0..530); every ordered pair of the 14 command types; no command; multi-block payloads) "
+        "+ TLC-simulated random command lists (<= 8 commands) over all configurations + every export history (<= 3 exports, commands added in between) x sampled "
+        "configurations; each case is concretised from VERIF_SEED, built through SecureBinary31 / Cmd* / CertBlockV21, exported, and the exported bytes are walked by the "
+        "independent executor; TLC decides every trace. non-trivial = executor got beyond the header; distinct by (abstract case, export number). "
+        "Tampering: single-bit flips stratified over all regions of accepted files (thorough: every bit of two whole files).")
+    v.assumptions += [
+        "trusted base: struct, hashlib (SHA-256/384), `cryptography` ECDSA verify / AES-CBC decrypt / AES-CMAC called directly by harness/c05_rom.py (never through spsdk.crypto)",
+        "frozen-from-source: which of the 14 commands carry the 16-byte extra word block (ERASE, LOAD, LOAD_CMAC, COPY, LOAD_HASH_LOCKING, FILL_MEMORY), the 64 reserved "
+        "bytes after LOAD_HASH_LOCKING data, the word order of CONFIGURE_MEMORY / FW_VERSION_CHECK and the 16/16-bit split of LOAD_KEY_BLOB come from the pinned source, "
+        "cross-checked in phase 1 against the golden .sb3 files; clauses carrying them detect changes but are not independent evidence",
+        "the derived key length follows the hash type (128 bit with SHA-256, 256 bit with SHA-384), not the PCK length (learned from the golden files)",
+        "the ISK is on the same curve as the root set (mixed curves: loader behaviour not documented - outside the asserted domain)",
+        "timestamp 0 is outside the domain (the constructor reads 0 as 'now'); descriptions are printable ASCII; PROGRAM_FUSES data is a whole number of words; "
+        "LOAD_KEY_BLOB offset and wrapping-key id fit 16 bits; ISK user data is a multiple of 4 up to 96 bytes (device limits)",
+        "content of padding bytes (after data, after the last command, 64-byte tail) is logged but not asserted; the reserved words of the extra word block must be zero",
+        "plain (unencrypted) containers are accepted by the model when the loader is told so (test variant; no header bit distinguishes them)",
+        "containers are built through the classes, not through nxpimage / load_from_config (configuration parsing is C19/C20 territory)",
+    ]
+    return v.finish()
+
+
+def replay(path):
+    import_spsdk()
+    w = json.load(open(path))["witness"]
+    pool()
+    traces = execute(w["plan"], "replay", keep_bytes=True)
+    if w.get("kind") == "tamper":
+        t = traces[0]
+        d = bytearray(t["file"])
+        d[w["bit"] // 8] ^= 1 << (w["bit"] % 8)
+        t2 = {"id": "replay", "inp": dict(t["inp"], waive=["Input"]), "ev": rom.run(bytes(d), t["rom"])}
+        rej, _ = tlc.tv("C05", "Sb31RomTrace", [t2])
+        say(json.dumps(t2["ev"][-1]))
+        if not rej:
+            say(f"VIOLATION property=C05 replay={path}")
+            say(f"  the file with bit {w['bit']} ({w['region']}) flipped is accepted")
+            return 1
+        say("replay: corrupted file rejected by the loader automaton")
+        return 0
+    t = next((x for x in traces if x["k"] == w["export"]), None)
+    if t is None:
+        say(f"replay: export #{w['export']} was not reached ({traces[-1]['ev'][-1]})")
+        t = traces[-1]
+    t2 = strip(t)
+    if w.get("waived"):
+        t2["inp"] = dict(t2["inp"], waive=w["waived"])
+        if t.get("file"):
+            t2["ev"] = rom.run(t["file"], t["rom"], waive=tuple(w["waived"]))
+    rej, _ = tlc.tv("C05", "Sb31RomTrace", [t2])
+    if rej:
+        matched = list(rej.values())[0][0]
+        say(f"VIOLATION property=C05 replay={path}")
+        say(f"  key={finding_key(t, matched)}: {describe(dict(t, ev=t2['ev']), matched)}")
+        return 1
+    say(f"replay: export #{t['k']} accepted by the loader automaton ({len(t2['ev'])} events)")
+    return 0
